@@ -20,13 +20,12 @@ import ast
 
 from core.cfg import EXIT
 from core.effects import Effects
-from core.guards import FALSE, TRUE, atom, atoms_of, equivalent, evaluate, f_and, f_not, f_or, implies, satisfiable, to_formula
-from core.loader import AnalysisError, Repo, header, norm, own_nodes, parent
+from core.guards import TRUE, atom, atoms_of, equivalent, f_and, f_not, f_or, implies, to_formula
+from core.loader import AnalysisError, Repo, header, norm, own_nodes
 from core.report import Result
 
 from . import names
-from .c14 import add_sites
-from .c17_model import Model, const_str, parse_atom, strip_wrappers
+from .c17_model import Model, const_str
 from .c17_view import _walk_own, deep_view
 from .common import cfg_of, reachable_funcs, stmt_of, types_of, where
 
@@ -61,6 +60,23 @@ def run(repo: Repo) -> Result:
     ctx.labels()
     ctx.stateless()
     return res
+
+
+def add_sites(repo: Repo, res: Result, rule: str, sites) -> int:
+    """One obligation per classified F-NAME site (same reporting as C14.R1; kept here so that C17 does not depend on C14's rule module)."""
+    n = 0
+    for s in sites:
+        key = repo.key(s.fi, stmt_of(s.node)) + f" [{s.op}: {norm(s.node, 70)}]"
+        if s.verdict in ("safe", "unsafe"):
+            n += 1
+            res.add(rule, key, s.verdict == "safe", s.why, where(s.fi, s.node), kind="flow")
+        elif s.verdict == "reviewed":
+            res.observe(f"{rule} reviewed site {s.fi.relpath}::{s.fi.qualname}: `{norm(s.node, 60)}` - {s.why}")
+        elif s.verdict == "unknown":
+            res.undecide(rule, key, s.why, where(s.fi, s.node))
+        elif s.verdict == "unclassified":
+            res.observe(f"{rule} unclassified (not armed) {s.fi.relpath}::{s.fi.qualname}: `{norm(s.node, 60)}` - {s.why}")
+    return n
 
 
 class Ctx:
